@@ -87,6 +87,8 @@ constexpr auto str_fill_cycle() -> bool
     for (etl::size_t i = 0; i < cap; ++i) s.push_back(static_cast<char>('a' + i % 26));
     if (s.size() != cap || s.c_str()[cap] != '\0') return false;
     s.append(4, 'x'); // clamped: nothing fits
+    s.append("xy", 2); // clamped: nothing fits
+    s += 'z';
     if (s.size() != cap || s.c_str()[cap] != '\0') return false;
     auto const last = cap > 0 ? s.find(s[cap - 1], cap - 1) : S::npos;
     if (cap > 0 && last != cap - 1) return false;
@@ -197,10 +199,16 @@ constexpr auto alg_shift_merge() -> bool
 template <typename T, int Len>
 constexpr auto to_chars_len(T v, int base) -> int // returns the number of characters written, -1 on value_too_large
 {
-    char buf[Len > 0 ? Len : 1]{};
-    auto r = etl::to_chars(buf, buf + Len, v, base);
-    if (r.ec != etl::errc{}) return -1;
-    return static_cast<int>(r.ptr - buf);
+    if constexpr (Len == 0) {
+        char one[1]{};
+        auto r = etl::to_chars(one + 1, one + 1, v, base); // empty range at the end of an object: any write is outside
+        return r.ec != etl::errc{} ? -1 : static_cast<int>(r.ptr - (one + 1));
+    } else {
+        char buf[Len]{};
+        auto r = etl::to_chars(buf, buf + Len, v, base);
+        if (r.ec != etl::errc{}) return -1;
+        return static_cast<int>(r.ptr - buf);
+    }
 }
 
 constexpr auto from_chars_unterminated() -> bool
